@@ -1,4 +1,6 @@
 """C09 - the recorder returns to idle; every run is independent of history."""
+from fractions import Fraction
+
 from lib import recdsl as rd
 from props.rec_common import *  # noqa: F401,F403
 from props import race_common as rc
@@ -9,6 +11,11 @@ RUN_MODULE = "RunC09"
 RULE = ("one case = a history of 2-6 runs on one real recorder (successful, raising, interrupted, discarded, sampled out, "
         "save failing, replay of a missing id, replay with missing keys / key-creation errors, replay whose playback function "
         "raises) ending in a probe run that is also executed on a FRESH recorder over the same cassette and draw position; "
+        "plus service-shaped histories (1-2 classes each declared once with ONE registered parameters object, mostly a "
+        "fractional rate, runs forcing / not forcing sampling independently; a deterministic grid forced run -> [other class | "
+        "replay] -> unforced run of the same class with the draw above the rate) and histories in which a recording written "
+        "through the cassette API (copy of a recorded run with no / no clock / only user / full metadata) is replayed and the "
+        "recorder is used again (implementation-side only: the clock metadata is outside the model); "
         "non-trivial = history of >= 2 runs; distinct = distinct history")
 ASSUMPTIONS = ["the thread-local interception flag is observed on the driver thread only",
                "threads: as for C04/C05 - the methods that touch the active recording are modelled access by access "
@@ -36,6 +43,101 @@ def rand_run(rng, runs):
                 op=rd.rand_opdef(rng, W, budget=rng.choice([4, 8, 14])), save_fails=rng.random() < 0.08)
 
 
+TENTH = [3602879701896397, 36028797018963968]       # float(0.1) exactly
+PLAIN_PRM = dict(rate=[1, 1], ignore=False, skipped=False, copy=False)
+
+
+def service_history(rng, k=None):
+    """A history shaped like a running service: 1-2 operation classes, each declared ONCE with ONE set of recording parameters
+    (or none), mostly with a fractional sampling rate; every run of a class goes through the same decorated class, hence
+    the same registered parameters object.  Runs force sampling / discard / fail independently of each other; the probe
+    (last run) is usually an unforced run of a class that ran forced before, with draws above the rate."""
+    classes = rng.sample(["OpA", "OpB", "Op_C"], rng.choice([1, 1, 2]))
+    decl = {}
+    for c in classes:
+        prm = None if rng.random() < 0.12 else dict(
+            rate=rng.choice([[0, 1], [1, 4], [1, 4], [1, 2], TENTH, [1, 1]]), ignore=rng.random() < 0.12,
+            skipped=rng.random() < 0.03, copy=rng.random() < 0.3)
+        decl[c] = dict(prm=prm, classlevel=rng.random() < 0.3,
+                       extractor=rng.choice([{"kind": "none"}] * 3 + [{"kind": "dict", "d": []}, {"kind": "raises"}]))
+    runs = []
+    n = rng.randrange(2, 6)
+    for j in range(n):
+        last = j == n - 1
+        c = rng.choice(classes) if not (last and runs) else rng.choice([r["op"]["cls"] for r in runs if r["kind"] == "record"])
+        recs = [r for r in runs if r["kind"] == "record"]
+        if recs and not last and rng.random() < 0.15:
+            t = rng.randrange(len(recs))
+            runs.append(dict(kind="play", target=t, pf={"kind": "op", "op": rd.clean(recs[t]["op"])}, enabled=rng.random() < 0.5))
+            continue
+        op = rd.rand_opdef(rng, dict(W, force=0.2, discard=0.25), budget=rng.choice([2, 4, 8]), cls=c)
+        op["classlevel"] = decl[c]["classlevel"]
+        op["extractor"] = rd.clean(decl[c]["extractor"])
+        if rng.random() < (0.15 if last else 0.6):
+            op["body"] = {"k": "force", "next": op["body"]}
+        runs.append(dict(kind="record", enabled=rng.random() < 0.97, prm=rd.clean(decl[c]["prm"]), op=op,
+                         save_fails=rng.random() < 0.05))
+    hi = [[1023, 1024], [3, 4], [1, 1]]
+    draws = [rng.choice(hi) if rng.random() < 0.7 else d for d in rd.rand_draws(rng, 12)]
+    return dict(interrupt_kind=rng.choice(INTERRUPT_KINDS), draws=draws, runs=runs, cassette="memory", probe_fresh=True,
+                predeclare=rng.random() < 0.3, stream="service")
+
+
+def service_grid():
+    """the small deterministic core of the same region: a forced run of a class with registered parameters and a sampling
+    rate below 1, then an unforced run of the same class whose draw is above the rate"""
+    ret = {"k": "ret", "e": {"lit": {"t": "int", "v": 1}}}
+    in_force = {"k": "in", "cfg": dict(alias="load", resolver={"kind": "none"}, cap=None, static=True, property=False,
+                                       handler="none", prep_discards=False, run_missing=False, vmiss={"kind": "none"},
+                                       fallbacks={"kind": "none"}),
+                "body": {"k": "force", "next": ret}, "args": [], "kwargs": [], "next": ret}
+    for rate in ([0, 1], [1, 4], TENTH):
+        for classlevel in (False, True):
+            for forced_body in ({"k": "force", "next": ret}, in_force, {"k": "force", "next": {"k": "raise", "ty": "ValueError"}},
+                                {"k": "force", "next": {"k": "interrupt"}}):
+                for middle in ((), ("other",), ("play",)):
+                    prm = dict(rate=rate, ignore=False, skipped=False, copy=False)
+                    mk = lambda body, cls="OpA": dict(kind="record", enabled=True, prm=rd.clean(prm), save_fails=False,   # noqa: E731
+                                                      op=dict(cls=cls, classlevel=classlevel, extractor={"kind": "none"}, body=rd.clean(body)))
+                    runs = [mk(forced_body)]
+                    if middle == ("other",):
+                        runs.append(mk(ret, cls="OpB"))
+                    elif middle == ("play",):
+                        runs.append(dict(kind="play", target=0, pf={"kind": "op", "op": rd.clean(runs[0]["op"])}, enabled=True))
+                    runs.append(mk(ret))
+                    yield dict(interrupt_kind="custom", draws=[[1023, 1024]] * 4, runs=runs, cassette="memory", probe_fresh=True,
+                               stream="service-grid")
+
+
+def foreign_history(rng, meta):
+    """A history in which a recording reaches the cassette through the cassette API rather than through the recorder (an
+    imported / tool-written / old-format recording: a copy of a recorded run's data without, or with only part of, the
+    recorder's metadata), is replayed, and the recorder is used again afterwards."""
+    runs = []
+    created = 0
+    for _ in range(rng.choice([1, 1, 2])):
+        runs.append(dict(kind="record", enabled=True, prm=dict(PLAIN_PRM), save_fails=False,
+                         op=rd.rand_opdef(rng, dict(W, discard=0.1, interrupt=0.05), budget=rng.choice([3, 6, 10]))))
+        created += 1
+    src = rng.randrange(created) if rng.random() < 0.9 else None
+    runs.append(dict(kind="import", src=src, meta=meta, cat="Imported"))
+    imported = created
+    created += 1
+    for _ in range(rng.choice([1, 1, 2])):
+        r = rng.random()
+        if r < 0.7 and src is not None:
+            pf = {"kind": "op", "op": rd.clean(runs[src]["op"])}
+        elif r < 0.9:
+            pf = {"kind": "op", "op": rd.rand_opdef(rng, W, budget=6)}
+        else:
+            pf = {"kind": "raises", "ty": rng.choice(rd.EXC_TYPES)}
+        runs.append(dict(kind="play", target=imported, pf=pf, enabled=rng.random() < 0.5))
+    for _ in range(rng.choice([1, 2])):
+        runs.append(rand_run(rng, runs))
+    return dict(interrupt_kind=rng.choice(INTERRUPT_KINDS), draws=rd.rand_draws(rng, 12), runs=runs, cassette="memory",
+                probe_fresh=True, stream="foreign")
+
+
 def to_gallina(case, obs):     # noqa: F811
     if rc.is_race(case):
         return rc.to_gallina(case, obs)
@@ -55,7 +157,18 @@ _hist_features, _hist_nontrivial = features, nontrivial     # (from rec_common)
 
 
 def features(case):      # noqa: F811
-    return rc.features(case) if rc.is_race(case) else _hist_features(case)
+    if rc.is_race(case):
+        return rc.features(case)
+    fs = _hist_features(case)
+    if case.get("stream"):
+        fs.add("stream:" + case["stream"])
+    recs = [r for r in case["runs"] if r["kind"] == "record"]
+    for i, r in enumerate(recs):
+        if r["prm"] and Fraction(*r["prm"]["rate"]) < 1 and not rd.has_stmt(r["op"]["body"], ("force",)) and any(
+                q["op"]["cls"] == r["op"]["cls"] and q["prm"] == r["prm"] and rd.has_stmt(q["op"]["body"], ("force",))
+                for q in recs[:i]):
+            fs.add("unforced-run-after-forced-run-of-same-class(rate<1)")
+    return fs
 
 
 def nontrivial(case):    # noqa: F811
@@ -78,6 +191,13 @@ def generate(rng, tier):
         for _ in range(rng.randrange(2, 7)):
             runs.append(rand_run(rng, runs))
         cases.append(dict(interrupt_kind=rng.choice(INTERRUPT_KINDS), draws=rd.rand_draws(rng, 12), runs=runs, cassette="memory", probe_fresh=True))
+    # classes declared once with one parameters object each (forcing in one run must not reach the next run of the class)
+    cases += list(service_grid())
+    for i in range(60 if tier == "quick" else 800):
+        cases.append(service_history(rng))
+    # recordings that did not come from the recorder (no / partial metadata), replayed, and the recorder used again
+    for i in range(40 if tier == "quick" else 400):
+        cases.append(foreign_history(rng, ["none", "no_clock", "user", "full"][i % 4]))
     return cases
 
 
@@ -121,7 +241,9 @@ MANIFEST = dict(
          "legitimately persists is explicit). Model tied to /repo by running random histories (all ending kinds) on one real "
          "recorder and comparing every observable incl. the recorder's private fields after each run; direct predicate: all "
          "public/private flags idle after every run, and the last run repeated on a fresh recorder over the same cassette "
-         "and draw position gives the identical observation.",
+         "and draw position gives the identical observation. The histories include classes whose registered parameters object is "
+         "shared by all their runs (forced then unforced runs of one class at a rate below 1) and replays of recordings that "
+         "did not come from the recorder (no duration metadata: play() fails after the replay state was cleared).",
     note="Trusted: Coq kernel + vm_compute, hand-written model, correspondence harness. Other threads' thread-local flags are "
          "not modelled (driver thread only).",
     technique="Coq proof (invariant + induction over histories) + differential correspondence by vm_compute + fresh-recorder "
